@@ -6,7 +6,9 @@
      ways     : n, (id nodes:(id lon lat)* tags meta area)*     area = what w.Polygon() answered
      relations: n, (id members:(type ref role orient nodes:(id lon lat)* )* tags meta)*
        tags = n (k v)* ; meta = has_ts ts version changeset user uid ; type 1 node 2 way 3 relation
+     (nodes, ways and relations each end with the answers of the osm methods, see pnode/pway/prel)
      unchanged: bool     the deep copy of the input taken before all runs equals the input after
+     known    : bool     the harness put the input into the known-finding class
      runs     : n, (optbits same features)*      optbits = 1 NoID | 2 NoMeta | 4 NoRelM | 8 InclInvalid
        same   : bool     converting a second time gave the identical observation
        feature = idtype(0 none,1,2,3) idref type ref tags tainted
@@ -18,7 +20,8 @@
           2 = the property oracle (Spec.v) fails on the observation: duplicate keys, a feature
               that does not carry its element, point/line/polygon/route rule, an option that
               changed more than it documents, a differing second run, a modified input
-          3 = C18's model of Way.Polygon (way_area) differs from the implementation's answer for a way
+          3 = the model's reading of a method of package osm differs from what it answered (Way.Polygon,
+              Relation.Polygon, Tags.AnyInteresting), or the harness's known-finding class differs from Spec.adopts
           0 = case does not parse *)
 From Coq Require Import ZArith String List Bool.
 From Verif Require Import Base.Wire C17.Model C17.Mputil C17.Spec.
@@ -42,22 +45,29 @@ Section Parse.
     if t =? 1 then ret TNode else if t =? 2 then ret TWay else if t =? 3 then ret TRel else pfail.
   Definition pwnode : P wnode :=
     i <- pint ;; x <- pint ;; y <- pint ;; ret {| wn_id := i; wn_lon := x; wn_lat := y |}.
-  Definition pnode : P node :=
-    i <- pint ;; x <- pint ;; y <- pint ;; t <- ptags ;; m <- pmeta ;;
-    ret {| n_id := i; n_lon := x; n_lat := y; n_tags := t; n_meta := m |}.
-  Definition pway : P (way * bool) :=
-    i <- pint ;; ns <- plist pwnode ;; t <- ptags ;; m <- pmeta ;; a <- pbool ;;
-    ret ({| w_id := i; w_nodes := ns; w_tags := t; w_meta := m |}, a).
+  (* besides the element: what methods of package osm answered on it (on a copy of the input):
+     Tags.AnyInteresting for all three kinds, Way.Polygon, Relation.Polygon *)
+  Definition pnode : P (node * bool) :=
+    i <- pint ;; x <- pint ;; y <- pint ;; t <- ptags ;; m <- pmeta ;; ai <- pbool ;;
+    ret ({| n_id := i; n_lon := x; n_lat := y; n_tags := t; n_meta := m |}, ai).
+  Definition pway : P (way * (bool * bool)) :=
+    i <- pint ;; ns <- plist pwnode ;; t <- ptags ;; m <- pmeta ;; a <- pbool ;; ai <- pbool ;;
+    ret ({| w_id := i; w_nodes := ns; w_tags := t; w_meta := m |}, (a, ai)).
   Definition pmember : P member :=
     ty <- petype ;; r <- pint ;; role <- pstr ;; o <- pint ;; ns <- plist pwnode ;;
     ret {| m_type := ty; m_ref := r; m_role := role; m_orient := o; m_nodes := ns |}.
-  Definition prel : P relation :=
-    i <- pint ;; ms <- plist pmember ;; t <- ptags ;; m <- pmeta ;;
-    ret {| r_id := i; r_members := ms; r_tags := t; r_meta := m |}.
+  Definition prel : P (relation * (bool * bool)) :=
+    i <- pint ;; ms <- plist pmember ;; t <- ptags ;; m <- pmeta ;; rp <- pbool ;; ai <- pbool ;;
+    ret ({| r_id := i; r_members := ms; r_tags := t; r_meta := m |}, (rp, ai)).
+  (* judgement 3: the model's reading of the osm package methods = what they answered *)
   Definition posm : P (osm * bool) :=
     ns <- plist pnode ;; ws <- plist pway ;; rs <- plist prel ;;
-    ret ({| nodes := ns; ways := map fst ws; relations := rs |},
-         forallb (fun wa => Bool.eqb (way_area (fst wa)) (snd wa)) ws).
+    ret ({| nodes := map fst ns; ways := map fst ws; relations := map fst rs |},
+         forallb (fun na => Bool.eqb (has_interesting (n_tags (fst na)) None) (snd na)) ns
+         && forallb (fun wa => Bool.eqb (way_area (fst wa)) (fst (snd wa))
+                               && Bool.eqb (has_interesting (w_tags (fst wa)) None) (snd (snd wa))) ws
+         && forallb (fun ra => Bool.eqb (relation_area (fst ra)) (fst (snd ra))
+                               && Bool.eqb (has_interesting (r_tags (fst ra)) None) (snd (snd ra))) rs).
 
   Definition ppt : P pt := ppair pint pint.
   Definition pline : P (list pt) := plist ppt.
@@ -92,7 +102,11 @@ Section Parse.
     b <- pint ;; same <- pbool ;; fs <- plist pfeature ;; ret (b, same, fs).
 
   Definition pbody : P (osm * bool * list (Z * bool * list feature) * bool) :=
-    da <- posm ;; unchanged <- pbool ;; runs <- plist prun ;; ret (fst da, unchanged, runs, snd da).
+    da <- posm ;; unchanged <- pbool ;; known <- pbool ;; runs <- plist prun ;;
+    (* the harness's known-finding class (a Go predicate on the input) must be Spec.adopts's:
+       some way adopted twice *)
+    ret (fst da, unchanged, runs,
+         snd da && Bool.eqb known (negb (nodupb Z.eqb (flat_map (adopts (fst da)) (relations (fst da)))))).
 End Parse.
 
 Definition pcase : P (osm * bool * list (Z * bool * list feature) * bool) :=
